@@ -64,7 +64,9 @@ func parseHeader(data []byte) *PageHeader {
 
 func parseItems(data []byte, h *PageHeader) []ItemID {
 	var items []ItemID
-	for off := headerSize; off < int(h.Lower); off += itemIDSize {
+	// pd_lower comes from the page and may point beyond the buffer (e.g. a header
+	// claiming a 32 KiB page in an 8 KiB read): stop at the last pointer that fits.
+	for off := headerSize; off < int(h.Lower) && off+itemIDSize <= len(data); off += itemIDSize {
 		raw := u32(data, off)
 		items = append(items, ItemID{
 			Offset: int(raw & 0x7FFF),
